@@ -488,3 +488,28 @@ Proof.
   intros. unfold hs, hs_sum_iter, hs_sum_exact, alloc_bytes. cbn [H dflt f_hs f_sum f_exact AB].
   rewrite sumN_map_zero. repeat split; reflexivity.
 Qed.
+
+(* ------------------------------------------------------------------------------------------- *)
+(* the evaluation support is sound: a size looked up in a measured table is the size measured for  *)
+(* exactly that type                                                                             *)
+(* ------------------------------------------------------------------------------------------- *)
+Lemma ty_eqb_eq : forall a b, ty_eqb a b = true -> a = b.
+Proof.
+  induction a using ty_ind'; intros b E; destruct b; cbn [ty_eqb] in E; try discriminate E;
+    repeat match goal with HH : _ && _ = true |- _ => apply andb_true_iff in HH as [? ?] end;
+    repeat match goal with HH : (_ =? _) = true |- _ => apply N.eqb_eq in HH; subst end;
+    try reflexivity;
+    try (f_equal; auto; fail).
+  - (* tuple *)
+    f_equal. revert ts0 E. induction H as [|t ts Ht _ IH]; intros [|u us] E; try discriminate E; [reflexivity|].
+    apply andb_true_iff in E as [E1 E2]. f_equal; [apply Ht, E1|apply IH, E2].
+  - (* range *)
+    f_equal; auto. destruct s, s0; try reflexivity; discriminate.
+Qed.
+Lemma table_sizeof_sound : forall tbl t, table_sizeof tbl t = unmeasured \/ In (t, table_sizeof tbl t) tbl.
+Proof.
+  induction tbl as [|[u n] tbl IH]; intros t; cbn [table_sizeof]; [left; reflexivity|].
+  destruct (ty_eqb t u) eqn:E.
+  - right. left. apply ty_eqb_eq in E. subst. reflexivity.
+  - destruct (IH t) as [U|I]; [left; exact U|right; right; exact I].
+Qed.
